@@ -141,9 +141,15 @@ func (ex *Exec) verifyTop() {
 	}
 
 	// panics
+	endCut := vc.curCut
+	defer func() { vc.curCut = endCut }()
 	for _, p := range fr.panics {
 		if c.MayPanic {
 			continue
+		}
+		vc.curCut = endCut
+		if p.hasCut {
+			vc.curCut = p.cut // hypotheses as they were where the panic is raised
 		}
 		if c.Throws {
 			// error-valued panics are part of the contract; anything else must be unreachable
